@@ -107,7 +107,30 @@ def apply_op(op, xs, tks, rtk):
     if op == 'CountOnes':
         bits, _ = INT_TYPES[tks[0]]
         return bin(xs[0] & ((1 << bits) - 1)).count('1')
+    if op in ('Ctlz', 'Cttz', 'Bswap', 'BitRev'):
+        bits, _ = INT_TYPES[tks[0]]
+        u = xs[0] & ((1 << bits) - 1)
+        bs = format(u, '0%db' % bits)
+        if op == 'Ctlz':
+            return bits if u == 0 else len(bs) - len(bs.lstrip('0'))
+        if op == 'Cttz':
+            return bits if u == 0 else len(bs) - len(bs.rstrip('0'))
+        if op == 'BitRev':
+            return wrap(int(bs[::-1], 2), rtk)
+        return wrap(int.from_bytes(u.to_bytes(bits // 8, 'big'), 'little'), rtk)
     a, b = xs
+    if op in ('RotL', 'RotR'):
+        bits, _ = INT_TYPES[tks[0]]
+        u = a & ((1 << bits) - 1)
+        k = b % bits
+        if op == 'RotR':
+            k = (bits - k) % bits
+        return wrap(((u << k) | (u >> (bits - k))) & ((1 << bits) - 1), rtk)
+    if op in ('SatAdd', 'SatSub'):
+        bits, signed = INT_TYPES[tks[0]]
+        lo, hi = (-(1 << (bits - 1)), (1 << (bits - 1)) - 1) if signed else (0, (1 << bits) - 1)
+        r = a + b if op == 'SatAdd' else a - b
+        return max(lo, min(hi, r))
     if op == 'Add': return wrap(a + b, rtk)
     if op == 'Sub': return wrap(a - b, rtk)
     if op == 'Mul': return wrap(a * b, rtk)
@@ -237,11 +260,45 @@ SHIM_MAP = {
     "<core::slice::Iter<'a, T> as core::iter::Iterator>::position": 'iter_position',
     "<core::slice::Iter<'a, T> as core::iter::Iterator>::any": 'iter_any',
     "<core::slice::Iter<'a, T> as core::iter::Iterator>::all": 'iter_all',
+    "<core::slice::Iter<'a, T> as core::iter::DoubleEndedIterator>::next_back": 'iter_next_back',
+    "<core::slice::Iter<'a, T> as core::iter::Iterator>::size_hint": 'iter_size_hint',
+    "<core::slice::Iter<'a, T> as core::iter::ExactSizeIterator>::len": 'iter_len',
+    "<core::slice::Iter<'a, T> as core::iter::Iterator>::count": 'iter_count',
+    "<core::slice::Iter<'a, T> as core::iter::Iterator>::last": 'iter_last',
+    "<core::slice::Iter<'a, T> as core::iter::Iterator>::nth": 'iter_nth',
+    "<core::slice::Iter<'a, T> as core::iter::DoubleEndedIterator>::nth_back": 'iter_nth_back',
+    "<core::slice::Iter<'a, T> as core::iter::Iterator>::fold": 'iter_fold',
+    "<core::slice::Iter<'a, T> as core::iter::Iterator>::for_each": 'iter_for_each',
+    "<core::slice::Iter<'a, T> as core::iter::Iterator>::rposition": 'iter_rposition',
+    "<core::slice::Iter<'a, T> as core::iter::Iterator>::__iterator_get_unchecked": 'iter_get_unchecked',
+    "core::slice::Iter::<'a, T>::as_slice": 'iter_as_slice',
+    'core::slice::<impl [T]>::iter_mut': 'slice_iter_mut',
+    "core::slice::IterMut::<'a, T>::new": 'slice_iter_mut',
+    "core::array::<impl core::iter::IntoIterator for &'a mut [T; N]>::into_iter": 'slice_iter_mut',
+    "core::slice::iter::<impl core::iter::IntoIterator for &'a mut [T]>::into_iter": 'slice_iter_mut',
+    "<core::slice::IterMut<'a, T> as core::iter::Iterator>::next": 'iter_mut_next',
     '<usize as core::slice::SliceIndex<[T]>>::get': 'slice_get_usize',
     'core::slice::<impl [T]>::contains': 'slice_contains',
     'core::slice::<impl [T]>::binary_search_by': 'binary_search_by',
 }
 _SHIM_FACTS = None
+import re as _re
+# slice / pointer APIs that core implements with raw pointers; modelled on the interpreter's array values
+SLICE_MODELS = {
+    'core::ptr::swap', 'core::ptr::swap_nonoverlapping',
+    'core::slice::<impl [T]>::split_at', 'core::slice::<impl [T]>::split_at_mut',
+    'core::slice::<impl [T]>::split_at_checked', 'core::slice::<impl [T]>::split_at_mut_checked',
+    'core::slice::<impl [T]>::split_at_unchecked', 'core::slice::<impl [T]>::split_at_mut_unchecked',
+    'core::slice::<impl [T]>::copy_from_slice', 'core::slice::<impl [T]>::clone_from_slice',
+    'core::slice::<impl [T]>::reverse', 'core::slice::<impl [T]>::fill', 'core::slice::<impl [T]>::swap',
+    'core::slice::<impl [T]>::starts_with', 'core::slice::<impl [T]>::ends_with',
+    'core::slice::cmp::<impl core::cmp::PartialEq<[U]> for [T]>::eq', 'core::slice::cmp::<impl core::cmp::PartialEq<[U]> for [T]>::ne',
+    'core::array::equality::<impl core::cmp::PartialEq<[U; N]> for [T; N]>::eq', 'core::array::equality::<impl core::cmp::PartialEq<[U; N]> for [T; N]>::ne',
+    'core::str::<impl str>::as_bytes', 'core::str::<impl str>::len', 'core::str::<impl str>::is_empty',
+}
+# `slice[a..b]` and friends: modelled as a window onto the same storage (core implements them with raw pointers)
+RANGE_INDEX = _re.compile(r'^<core::ops::(Range|RangeTo|RangeFrom|RangeInclusive|RangeToInclusive)<usize> as core::slice::SliceIndex<\[T\]>>::(index|index_mut|get|get_mut)$'
+                          r'|^<core::ops::(RangeFull) as core::slice::SliceIndex<\[T\]>>::(index|index_mut|get|get_mut)$')
 
 
 def load_shim_facts():
@@ -308,6 +365,12 @@ class Program:
                     for it in im['items']:
                         if it['name'] == method and it['is_fn']:
                             return it['path']
+                    # the impl does not override it: the trait's provided (default) body, generic over Self
+                    for tr in self.facts.get('traits', []):
+                        if tr['path'] == trait or tr['path'].split('::')[-1] == trait.split('::')[-1]:
+                            dflt = tr['path'] + '::' + method
+                            if method in tr.get('items', []) and dflt in self.fns:
+                                return dflt
         return None
 
     def adt(self, path):
@@ -322,7 +385,7 @@ class Program:
             a = self.adt(path)
             r = a['kind'] == 'enum' and len(a['variants']) > 0 and all(not v['fields'] for v in a['variants'])
             if r and any(v['discr'] != v['idx'] for v in a['variants']):
-                # raw bits at the discriminant type's width, exactly as MIR switch targets encode them
+                # mathematical values (-1 for Ordering::Less); switchInt normalises to the raw bits of the operand type
                 DISCR[path] = [v['discr'] for v in a['variants']]
             self._fieldless[path] = r
         return r
@@ -356,7 +419,18 @@ class Program:
             return dict(ty, to=self.subst_ty(ty['to'], env))
         if k == 'tuple':
             return dict(ty, elems=[self.subst_ty(a, env) for a in ty['elems']])
+        if k in ('array', 'slice') and 'elem' in ty:
+            return dict(ty, elem=self.subst_ty(ty['elem'], env))
         return ty
+
+    @staticmethod
+    def has_param(ty):
+        if not isinstance(ty, dict):
+            return False
+        if ty.get('k') in ('param', 'alias', 'other', 'opaque'):
+            return True
+        return any(Program.has_param(x) for key in ('args', 'elems', 'upvars') for x in (ty.get(key) or [])) or \
+            any(Program.has_param(ty[key]) for key in ('to', 'elem') if key in ty)
 
     def variant_field_tys(self, ty, vidx):
         a = self.adt(ty['path'])
@@ -388,12 +462,16 @@ def full_domain(prog, tk):
 # interpreter state
 
 class Frame:
-    __slots__ = ('uid', 'fn', 'body', 'bb', 'dest', 'ret_to', 'depth', 'pc', 'sub')
+    __slots__ = ('uid', 'fn', 'body', 'bb', 'dest', 'ret_to', 'depth', 'pc', 'sub', 'targs')
+
+    def __init__(self):
+        self.targs = None   # type-parameter name -> concrete type, when this generic body runs for a known instantiation
 
     def copy(self):
         f = Frame()
         f.uid, f.fn, f.body, f.bb, f.dest, f.ret_to, f.depth, f.pc, f.sub = \
             self.uid, self.fn, self.body, self.bb, self.dest, self.ret_to, self.depth, self.pc, self.sub
+        f.targs = self.targs
         return f
 
     def goto(self, bb):
@@ -572,6 +650,10 @@ class Engine:
                 if not 0 <= step[1] < len(v[1]):
                     raise Undecided('array index %d out of bounds (%d) without a bounds check' % (step[1], len(v[1])))
                 v = v[1][step[1]]
+            elif step[0] == 's':   # sub-slice window [a, b)
+                if v[0] != 'arr' or not 0 <= step[1] <= step[2] <= len(v[1]):
+                    raise Undecided('sub-slice window outside its array')
+                v = ('arr', v[1][step[1]:step[2]])
             else:  # downcast
                 if v[0] == 'se':
                     d = st.doms.get(v[2][1]) if v[2][0] == 'a' else None
@@ -599,6 +681,13 @@ class Engine:
             elems = list(v[1])
             elems[step[1]] = self.set_path(elems[step[1]], path[1:], new, st)
             return ('arr', tuple(elems))
+        if step[0] == 's':
+            if v[0] != 'arr' or not 0 <= step[1] <= step[2] <= len(v[1]):
+                raise Undecided('sub-slice write outside its array')
+            sub = self.set_path(('arr', v[1][step[1]:step[2]]), path[1:], new, st)
+            if sub[0] != 'arr' or len(sub[1]) != step[2] - step[1]:
+                raise Undecided('sub-slice write changes the length')
+            return ('arr', v[1][:step[1]] + tuple(sub[1]) + v[1][step[2]:])
         if v[0] != 'adt':
             raise Undecided('projection write on %s' % v[0])
         if step[0] == 'd':
@@ -659,6 +748,15 @@ class Engine:
                 path = path + (('i', iv[1]),)
             elif k == 'cindex' and not e.get('from_end'):
                 path = path + (('i', e['i']),)
+            elif k in ('cindex', 'subslice'):
+                cur = self.get_path(st.store.get(cell), path, st)
+                if cur is None or cur[0] != 'arr':
+                    raise Undecided('slice pattern on %s' % (cur[0] if cur else 'nothing'))
+                n = len(cur[1])
+                if k == 'cindex':
+                    path = path + (('i', n - e['i']),)
+                else:
+                    path = path + (('s', e['from'], (n - e['to']) if e.get('from_end') else e['to']),)
             else:
                 raise Undecided('place projection ' + e.get('s', k))
         return cell, path
@@ -688,6 +786,15 @@ class Engine:
             return C(wrap(o['int'], tk), tk)
         if 'promoted' in o:
             return self.eval_promoted(o['promoted'], st, fr)
+        if 'assoc' in o and 'int' not in o and 'val' not in o and fr.targs and o['assoc'].get('args'):
+            # `<T as Trait>::CONST` in generic code running for a known instantiation
+            ac = o['assoc']
+            self_ty = self.prog.subst_ty(ac['args'][0], fr.targs)
+            for im in self.prog.facts.get('impls', []):
+                if im.get('trait') in (ac['trait'], ac['trait'].split('::')[-1]) and im['self_ty'] == self_ty:
+                    for it in im['items']:
+                        if it['name'] == ac['name'] and not it['is_fn'] and 'val' in it:
+                            return self.structured_const(it['val'], st)
         if 'val' in o:
             return self.structured_const(o['val'], st)
         if 'zst' in o:
@@ -696,6 +803,12 @@ class Engine:
             return ('adt', ty['path'], 0, ())
         if 'fn' in o:
             return self.fn_value(o['fn'])
+        if ty.get('k') == 'ref' and ty['to'].get('k') == 'str':
+            # a string literal: a reference to text the interpreter never looks into (panic messages)
+            cell = ('K', 'str:' + o.get('other', '?'))
+            if cell not in st.store:
+                st.store[cell] = ('op', 'str-data', ty['to'])
+            return ('ref', cell, ())
         return ('op', 'const:' + o.get('other', '?')[:60], ty)
 
     def static_cell(self, path, st):
@@ -855,6 +968,22 @@ class Engine:
             if rv['kind'] == 'Transmute' and is_scalar(a) and tk in INT_TYPES and tk_of(a) in INT_TYPES \
                     and INT_TYPES[tk][0] == INT_TYPES[tk_of(a)][0] and tk != 'bool' and tk_of(a) != 'bool':
                 return T('Cast', (a,), tk)
+            if rv['kind'] == 'Transmute' and a is not None:
+                # byte array <-> integer (from_ne_bytes / to_ne_bytes); the analysed host is little-endian x86-64
+                dty = rv['ty']
+                if a[0] == 'arr' and tk in INT_TYPES and tk not in ('bool', 'char') and INT_TYPES[tk][0] == 8 * len(a[1]) \
+                        and all(is_scalar(x) and tk_of(x) in ('u8', 'i8') for x in a[1]):
+                    utk = 'u%d' % INT_TYPES[tk][0]
+                    acc = C(0, utk)
+                    for i, x in enumerate(a[1]):
+                        acc = T('BitOr', (acc, T('Shl', (T('Cast', (T('Cast', (self.simp(x, st),), 'u8'),), utk), C(8 * i, 'u32')), utk)), utk)
+                    return T('Cast', (acc,), tk)
+                if is_scalar(a) and tk_of(a) in INT_TYPES and tk_of(a) not in ('bool', 'char') and dty.get('k') == 'array' \
+                        and self.prog.tk(dty['elem']) in ('u8', 'i8') and dty.get('len') is not None and 8 * dty['len'] == INT_TYPES[tk_of(a)][0]:
+                    utk = 'u%d' % INT_TYPES[tk_of(a)][0]
+                    etk = self.prog.tk(dty['elem'])
+                    ua = T('Cast', (a,), utk)
+                    return ('arr', tuple(T('Cast', (T('Shr', (ua, C(8 * i, 'u32')), utk),), etk) for i in range(dty['len'])))
             kind = rv['kind']
             a0 = self.operand(rv['op'], st, fr)
             if kind.startswith('PointerCoercion(ReifyFnPointer') or kind.startswith('PointerCoercion(UnsafeFnPointer'):
@@ -862,7 +991,7 @@ class Engine:
                     return a0
             if kind.startswith('PointerCoercion(ClosureFnPointer'):
                 if a0 is not None and a0[0] == 'adt' and a0[1].startswith('(closure)') and not a0[3]:
-                    cp = a0[1][len('(closure)'):]
+                    cp = a0[1][len('(closure)'):].split('\t')[0]
                     return ('fn', {'path': cp, 'path_inst': cp, 'closure_fnptr': True, 'resolved': None, 'trait': None})
             if kind.startswith('PointerCoercion(Unsize'):
                 if a0 is not None and a0[0] == 'dyn' and rv['ty'].get('k') == 'ref' and rv['ty']['to'].get('k') == 'dyn':
@@ -879,6 +1008,15 @@ class Engine:
                 raise Undecided('pointer cast ' + kind, sp)
             raise Undecided('cast ' + rv['kind'], sp)
         if k == 'discr':
+            if not rv['pl']['p'] and ('L', fr.uid, rv['pl']['l']) not in st.store:
+                # optimised library MIR drops the assignment of values such as `Option<Infallible>`, whose only
+                # inhabited variant leaves nothing to store, but still reads their discriminant
+                ty = fr.body['locals'][rv['pl']['l']]['ty']
+                if ty.get('k') == 'adt' and ty['path'] in self.prog.adts and self.prog.adts[ty['path']]['kind'] == 'enum':
+                    a = self.prog.adt(ty['path'])
+                    live = [v_ for v_ in a['variants'] if not any(self.prog.uninhabited(t_) for t_ in self.prog.variant_field_tys(ty, v_['idx']))]
+                    if len(live) == 1 and not live[0]['fields']:
+                        return C(live[0]['discr'], 'isize')
             v = self.load(rv['pl'], st, fr)
             return self.discriminant(v, st, sp)
         if k == 'agg':
@@ -888,6 +1026,8 @@ class Engine:
             if rv['kind'] == 'array':
                 return ('arr', ops)
             if rv['kind'] == 'closure':
+                if fr.fn.get('vis') == 'ext' and rv.get('path_inst') and rv['path'] not in self.prog.fns:
+                    return ('adt', '(closure)' + rv['path'] + '\t' + rv['path_inst'], 0, ops)
                 return ('adt', '(closure)' + rv['path'], 0, ops)
             if rv['kind'] == 'adt':
                 if self.prog.is_fieldless_enum(rv['path']):
@@ -925,6 +1065,11 @@ class Engine:
             raise Undecided('step budget exhausted (loop?)', s.get('sp'))
         if s['k'] == 'assign':
             v = self.rvalue(s['rv'], st, fr, s['sp'])
+            if s['rv']['k'] == 'discr' and is_scalar(v) and tk_of(v) == 'isize' and not s['pl']['p']:
+                # Discriminant(place) has the enum's discriminant type (i8 for Ordering), which is the local's type
+                dtk = self.prog.tk(fr.body['locals'][s['pl']['l']]['ty'])
+                if dtk in INT_TYPES and dtk != 'isize':
+                    v = T('Cast', (v,), dtk)
             self.storev(s['pl'], v, st, fr, s['sp'])
             if s['pl']['l'] == 0:
                 st.ret_span = (fr.fn['path'], s['sp'])
@@ -1016,7 +1161,12 @@ class Engine:
         work = [st]
         while work:
             s = work.pop()
-            self.step_until_fork(s, work, leaves)
+            try:
+                self.step_until_fork(s, work, leaves)
+            except Undecided as u:
+                if not hasattr(u, 'stack'):
+                    u.stack = [f_.fn.get('path_inst') or f_.fn['path'] for f_ in s.frames]
+                raise
         self.stats['leaves'] += len(leaves)
         return leaves
 
@@ -1073,6 +1223,14 @@ class Engine:
             except NeedFrame as nf_:
                 self.push_aux_frame(nf_, st, fr)
                 continue
+            except NeedSplit as ns:
+                parts = self.split(st, ns.value, t.get('sp'))
+                if len(parts) == 1 and parts[0][1] is st:
+                    raise Undecided('value needed by a call cannot be decided', t.get('sp'))
+                for _, s2 in parts:
+                    if s2 is not st:
+                        work.append(s2)
+                return
             if r_ == 'return':
                 return
 
@@ -1227,7 +1385,21 @@ class Engine:
         argtys = [self.operand_ty(a, fr) for a in t['args']]
         return self.invoke(fn, vals, argtys, t, st, fr, work, leaves, 0)
 
-    def push_frame(self, callee, vals, t, st, fr):
+    def callee_targs(self, callee, res, fr):
+        """Instantiation of a generic local callee: its type parameters -> the call's (resolved) type arguments, themselves
+        instantiated through the caller's own instantiation.  None when unknown (the body then stays parametric)."""
+        tp = callee.get('tparams')
+        if not tp or res is None or res.get('args') is None or len(res['args']) != len(tp):
+            return None
+        env = fr.targs or {}
+        out = {}
+        for n, a in zip(tp, res['args']):
+            a = self.prog.subst_ty(a, env)
+            if not Program.has_param(a):
+                out[n] = a
+        return out or None
+
+    def push_frame(self, callee, vals, t, st, fr, targs=None):
         sp = t['sp']
         if fr.depth + 1 > self.max_depth:
             raise Undecided('call depth bound exceeded (recursion?)', sp)
@@ -1239,6 +1411,13 @@ class Engine:
         nf.uid = st.next_uid; st.next_uid += 1
         nf.fn = callee; nf.body = callee['body']; nf.bb = 0; nf.pc = 0; nf.sub = 0
         nf.dest = t['dest']; nf.ret_to = t['t']; nf.depth = fr.depth + 1
+        nf.targs = targs
+        if targs is None and callee.get('closure_of'):
+            # a closure body is generic over its parent's parameters: inherit the instantiation of the parent's active frame
+            for pf_ in reversed(st.frames):
+                if pf_.fn.get('path') == callee['closure_of']:
+                    nf.targs = pf_.targs
+                    break
         for i, v in enumerate(vals):
             st.store[('L', nf.uid, i + 1)] = v
         st.frames.append(nf)
@@ -1248,11 +1427,17 @@ class Engine:
     def call_closure(self, cpath, env, args, t, st, fr):
         """Run the body of local closure `cpath` with captured environment `env` (the closure value or a
         reference to it) on already untupled `args`."""
+        cinst = None
+        if '\t' in cpath:
+            cpath, cinst = cpath.split('\t', 1)
         callee = self.prog.fns.get(cpath)
         if callee is None:
             # a closure defined inside an inlined library function
             cands = self.prog.ext_by_path.get(cpath, [])
-            if len(cands) == 1:
+            exact = [c for c in cands if cinst is not None and c.get('path_inst') == cinst]
+            if len(exact) == 1:
+                callee = exact[0]
+            elif len(cands) == 1:
                 callee = cands[0]
             elif cpath in self.prog.ext_generic:
                 callee = self.prog.ext_generic[cpath]
@@ -1318,9 +1503,12 @@ class Engine:
                 selfty = selfty['to']
             # find the callable value behind any references
             v = cv
-            for _ in range(4):
+            for _ in range(6):
                 if v is not None and v[0] == 'ref':
                     v = self.get_path(st.store.get(v[1]), v[2], st)
+                elif v is not None and v[0] == 'dyn':      # &dyn Fn(..): the closure / fn recorded at the unsizing coercion
+                    cv = v[1]
+                    v = v[1]
                 else:
                     break
             if selfty is not None and selfty.get('k') == 'fndef' and 'fn' in selfty:
@@ -1330,7 +1518,7 @@ class Engine:
             if v is not None and v[0] == 'adt' and v[1].startswith('(closure)'):
                 return self.call_closure(v[1][len('(closure)'):], cv, args, t, st, fr)
             if selfty is not None and selfty.get('k') == 'closure':
-                return self.call_closure(selfty['path'], cv, args, t, st, fr)
+                return self.call_closure(selfty['path'] + ('\t' + selfty['inst'] if selfty.get('inst') else ''), cv, args, t, st, fr)
             raise Undecided('call of an unknown callable %s' % term_str(v), sp)
         # ---- dynamic dispatch: resolve through the concrete type recorded at the unsizing coercion
         if res is not None and res.get('kind') == 'virtual' and vals and vals[0] is not None and vals[0][0] == 'dyn':
@@ -1355,6 +1543,19 @@ class Engine:
                     self.prog.is_fieldless_enum('core::cmp::Ordering')
                     return ret(T('Cmp', (xs[0], xs[1]), 'E:core::cmp::Ordering'))
                 return ret(T(op, (xs[0], xs[1]), 'bool'))
+        if res is None and fn.get('trait') is not None and fn.get('trait') not in self.FN_TRAITS and fr.targs and fn.get('args'):
+            # generic code running for a known instantiation: `<T as Trait>::method` with T bound by the frame
+            sargs = [prog.subst_ty(a, fr.targs) for a in fn['args']]
+            if not Program.has_param(sargs[0]):
+                impl_fn = prog.find_impl_method(fn['trait'], sargs[0], fn.get('method'))
+                if impl_fn is not None and impl_fn in prog.fns:
+                    tgt = prog.fns[impl_fn]
+                    is_default = not tgt.get('impl_trait')
+                    if is_default or not tgt.get('tparams'):
+                        nfn = {'path': impl_fn, 'path_inst': impl_fn, 'trait': None, 'args': sargs if is_default else [],
+                               'resolved': {'path': impl_fn, 'path_inst': impl_fn, 'local': True, 'kind': 'item',
+                                            'args': sargs if is_default else []}}
+                        return self.invoke(nfn, vals, argtys, t, st, fr, work, leaves, depth + 1)
         if res is None and fn.get('trait') is not None and fn.get('trait') not in self.FN_TRAITS and vals:
             v = vals[0]
             hops = 0
@@ -1399,7 +1600,7 @@ class Engine:
                 if len(vals) == 2 and vals[1] is not None and vals[1][0] == 'adt' and vals[1][1] == '(tuple)' \
                         and callee['body']['arg_count'] == 1 + len(vals[1][3]):
                     return self.call_closure(target, vals[0], list(vals[1][3]), t, st, fr)
-            return self.push_frame(callee, vals, t, st, fr)
+            return self.push_frame(callee, vals, t, st, fr, targs=self.callee_targs(callee, res, fr) if target is not None else None)
         # ---- modelled library callees
         if target is None and path is not None:
             m = self.model_call(fn, res, vals, t, st, fr, work, leaves)
@@ -1444,7 +1645,8 @@ class Engine:
     def prefer_model(path):
         """Library functions that are modelled rather than interpreted: the formatting plumbing that only builds the
         message of a panic (its result feeds a diverging panic entry point and nothing else)."""
-        return path.startswith('core::fmt::Arguments') or path.startswith('core::fmt::rt::')
+        return path.startswith('core::fmt::Arguments') or path.startswith('core::fmt::rt::') or RANGE_INDEX.match(path) is not None \
+            or path in SLICE_MODELS
 
     @staticmethod
     def is_panic_path(path):
@@ -1530,6 +1732,149 @@ class Engine:
                 raise Undecided('model %s: argument is not an enum value' % path, sp)
             return v
 
+        if path in SLICE_MODELS or path == 'core::intrinsics::raw_eq':
+            def arr_at(r):
+                if r is None or r[0] != 'ref':
+                    raise Undecided('model %s: argument is not a reference' % path, sp)
+                a_ = self.get_path(st.store.get(r[1]), r[2], st)
+                if a_ is None or a_[0] != 'arr':
+                    raise Undecided('model %s: argument does not point to an array' % path, sp)
+                return a_
+
+            def put(r, new):
+                st.store[r[1]] = self.set_path(st.store.get(r[1]), r[2], new, st) if r[2] else new
+
+            def concrete(v):
+                v = self.simp(v, st)
+                if not is_scalar(v):
+                    raise Undecided('model %s: index is not a scalar' % path, sp)
+                if v[0] != 'c':
+                    only = self.unique_value(v, st)
+                    if only is None:
+                        raise NeedSplit(v)
+                    return only
+                return v[1]
+            unit = ('adt', '(tuple)', 0, ())
+            name = path.split('::')[-1]
+            if path in ('core::ptr::swap', 'core::ptr::swap_nonoverlapping') and len(vals) == 2:
+                ra, rb = vals
+                if ra is None or rb is None or ra[0] != 'ref' or rb[0] != 'ref':
+                    raise Undecided('swap of non-places', sp)
+                va = self.get_path(st.store.get(ra[1]), ra[2], st)
+                vb = self.get_path(st.store.get(rb[1]), rb[2], st)
+                put(ra, vb)
+                put(rb, va)
+                return ret(unit)
+            if name == 'swap' and len(vals) == 3:
+                a_ = arr_at(vals[0])
+                i, j = concrete(vals[1]), concrete(vals[2])
+                if not (0 <= i < len(a_[1]) and 0 <= j < len(a_[1])):
+                    self.finish(st, 'panic', leaves, panic=('call:core::panicking::panic_bounds_check', 'slice::swap index out of bounds', sp, fr.fn['path']))
+                    return 'stop'
+                el = list(a_[1]); el[i], el[j] = el[j], el[i]
+                put(vals[0], ('arr', tuple(el)))
+                return ret(unit)
+            if name.startswith('split_at'):
+                a_ = arr_at(vals[0])
+                mid = concrete(vals[1])
+                n = len(a_[1])
+                pair = None
+                if 0 <= mid <= n:
+                    pair = ('adt', '(tuple)', 0, (('ref', vals[0][1], vals[0][2] + (('s', 0, mid),)), ('ref', vals[0][1], vals[0][2] + (('s', mid, n),))))
+                if name.endswith('_checked'):
+                    return ret(('adt', 'core::option::Option', 1, (pair,)) if pair else ('adt', 'core::option::Option', 0, ()))
+                if pair is None:
+                    if name.endswith('_unchecked'):
+                        raise Undecided('split_at_unchecked beyond the end (undefined behaviour)', sp)
+                    self.finish(st, 'panic', leaves, panic=('call:core::panicking::panic_fmt', 'mid > len in split_at', sp, fr.fn['path']))
+                    return 'stop'
+                return ret(pair)
+            if name in ('copy_from_slice', 'clone_from_slice'):
+                d_, s_ = arr_at(vals[0]), arr_at(vals[1])
+                if len(d_[1]) != len(s_[1]):
+                    self.finish(st, 'panic', leaves, panic=('call:core::panicking::panic_fmt', 'source slice length does not match destination', sp, fr.fn['path']))
+                    return 'stop'
+                if not all(x is not None and is_scalar(x) for x in s_[1]):
+                    raise Undecided('model %s on non-scalar elements' % path, sp)
+                put(vals[0], ('arr', tuple(s_[1])))
+                return ret(unit)
+            if name == 'reverse':
+                a_ = arr_at(vals[0])
+                put(vals[0], ('arr', tuple(reversed(a_[1]))))
+                return ret(unit)
+            if name == 'fill':
+                a_ = arr_at(vals[0])
+                if vals[1] is None or not is_scalar(vals[1]):
+                    raise Undecided('slice::fill with a non-scalar value', sp)
+                put(vals[0], ('arr', (vals[1],) * len(a_[1])))
+                return ret(unit)
+            if name in ('eq', 'ne', 'raw_eq', 'starts_with', 'ends_with'):
+                a_, b_ = arr_at(vals[0]), arr_at(vals[1])
+                if name in ('starts_with', 'ends_with'):
+                    if len(b_[1]) > len(a_[1]):
+                        return ret(C(0, 'bool'))
+                    n_ = len(b_[1])
+                    a_ = ('arr', a_[1][:n_] if name == 'starts_with' else a_[1][len(a_[1]) - n_:])
+                if len(a_[1]) != len(b_[1]):
+                    return ret(C(0 if name != 'ne' else 1, 'bool'))
+                acc = C(1, 'bool')
+                for x, y in zip(a_[1], b_[1]):
+                    x, y = self.simp(x, st), self.simp(y, st)
+                    if not (is_scalar(x) and is_scalar(y)) or tk_of(x) != tk_of(y) or tk_of(x)[2:] in DISCR:
+                        raise Undecided('model %s on non-scalar elements' % path, sp)
+                    acc = T('BitAnd', (acc, T('Eq', (x, y), 'bool')), 'bool')
+                return ret(T('Not', (acc,), 'bool') if name == 'ne' else acc)
+            if name == 'as_bytes':
+                return ret(vals[0])
+            if name in ('len', 'is_empty'):
+                a_ = arr_at(vals[0])
+                return ret(C(len(a_[1]), 'usize') if name == 'len' else C(int(len(a_[1]) == 0), 'bool'))
+        m_ = RANGE_INDEX.match(path)
+        if m_:
+            kind, meth = (m_.group(1), m_.group(2)) if m_.group(1) else (m_.group(3), m_.group(4))
+            rg, sl = vals[0], vals[1]
+            if sl is None or sl[0] != 'ref':
+                raise Undecided('range index on a non-reference', sp)
+            tgt = self.get_path(st.store.get(sl[1]), sl[2], st)
+            if tgt is None or tgt[0] != 'arr':
+                raise Undecided('range index on %s' % (tgt[0] if tgt else 'nothing'), sp)
+            n = len(tgt[1])
+
+            def bound(v):
+                v = self.simp(v, st)
+                if not is_scalar(v):
+                    raise Undecided('range bound is not a scalar', sp)
+                if v[0] != 'c':
+                    only = self.unique_value(v, st)
+                    if only is None:
+                        raise NeedSplit(v)
+                    return only
+                return v[1]
+            f = rg[3] if rg is not None and rg[0] == 'adt' else ()
+            if kind == 'Range':
+                lo, hi = bound(f[0]), bound(f[1])
+            elif kind == 'RangeTo':
+                lo, hi = 0, bound(f[0])
+            elif kind == 'RangeFrom':
+                lo, hi = bound(f[0]), n
+            elif kind == 'RangeFull':
+                lo, hi = 0, n
+            elif kind == 'RangeToInclusive':
+                lo, hi = 0, bound(f[0]) + 1
+            else:   # RangeInclusive { start, end, exhausted }
+                hi = bound(f[1]) + 1
+                lo = hi if bound(f[2]) else bound(f[0])
+            if hi >= 1 << 64:
+                raise Undecided('inclusive range ending at usize::MAX', sp)
+            okay = 0 <= lo <= hi <= n
+            if meth in ('index', 'index_mut'):
+                if not okay:
+                    self.finish(st, 'panic', leaves, panic=('call:core::slice::index::slice_index_fail', 'range %d..%d out of range for slice of length %d' % (lo, hi, n), sp, fr.fn['path']))
+                    return 'stop'
+                return ret(('ref', sl[1], sl[2] + (('s', lo, hi),)))
+            if not okay:
+                return ret(('adt', 'core::option::Option', 0, ()))
+            return ret(('adt', 'core::option::Option', 1, (('ref', sl[1], sl[2] + (('s', lo, hi),)),)))
         # `?` on Result: core's impl is `match self { Ok(v) => Continue(v), Err(e) => Break(Err(e)) }`
         if path == '<core::result::Result<T, E> as core::ops::Try>::branch':
             v = concrete_enum(0)
@@ -1600,6 +1945,35 @@ class Engine:
             if not is_scalar(v):
                 raise Undecided('ctpop on non-scalar', sp)
             return ret(T('CountOnes', (v,), 'u32'))
+        _UN = {'ctlz': 'Ctlz', 'ctlz_nonzero': 'Ctlz', 'cttz': 'Cttz', 'cttz_nonzero': 'Cttz', 'bswap': 'Bswap', 'bitreverse': 'BitRev'}
+        _BIN = {'rotate_left': 'RotL', 'rotate_right': 'RotR', 'saturating_add': 'SatAdd', 'saturating_sub': 'SatSub',
+                'wrapping_add': 'Add', 'wrapping_sub': 'Sub', 'wrapping_mul': 'Mul'}
+        if path.startswith('core::intrinsics::') and path[len('core::intrinsics::'):] in _UN:
+            nm = path[len('core::intrinsics::'):]
+            v = self.simp(vals[0], st)
+            if not is_scalar(v) or tk_of(v) not in INT_TYPES:
+                raise Undecided(nm + ' on non-scalar', sp)
+            if nm.endswith('_nonzero') and self.unique_value(T('Eq', (v, C(0, tk_of(v))), 'bool'), st) != 0:
+                raise Undecided(nm + ' may be applied to zero (undefined behaviour)', sp)
+            return ret(T(_UN[nm], (v,), 'u32' if nm in ('ctlz', 'cttz') else tk_of(v)))
+        if path.startswith('core::intrinsics::') and path[len('core::intrinsics::'):] in _BIN:
+            nm = path[len('core::intrinsics::'):]
+            a = self.simp(vals[0], st)
+            b = self.simp(vals[1], st)
+            if not (is_scalar(a) and is_scalar(b)) or tk_of(a) not in INT_TYPES:
+                raise Undecided(nm + ' on non-scalar', sp)
+            return ret(T(_BIN[nm], (a, b), tk_of(a)))
+        if path == 'core::intrinsics::is_val_statically_known':
+            return ret(C(0, 'bool'))   # an optimisation hint; both answers are required to be semantically equivalent
+        if path == 'core::intrinsics::typed_swap_nonoverlapping':
+            ra, rb = vals[0], vals[1]
+            if ra is None or rb is None or ra[0] != 'ref' or rb[0] != 'ref':
+                raise Undecided('swap of non-places', sp)
+            va = self.get_path(st.store.get(ra[1]), ra[2], st)
+            vb = self.get_path(st.store.get(rb[1]), rb[2], st)
+            st.store[ra[1]] = self.set_path(st.store.get(ra[1]), ra[2], vb, st) if ra[2] else vb
+            st.store[rb[1]] = self.set_path(st.store.get(rb[1]), rb[2], va, st) if rb[2] else va
+            return ret(('adt', '(tuple)', 0, ()))
         if path in ('core::intrinsics::likely', 'core::intrinsics::unlikely', 'core::hint::black_box', 'core::convert::identity'):
             return ret(vals[0])
         if path in ('core::intrinsics::cold_path', 'core::hint::assert_unchecked', 'core::intrinsics::assume'):
